@@ -6,7 +6,8 @@
   scope and `set --` reach below it as well (unless the body is inside a regular context it pushed
   itself), and `get_or_new(Local)` even carries the temporary variable down with it.  `frameOK` is
   the exact admissibility condition; `run_frameG` is the induction over the body, for both kinds of
-  commands.  Property theorems are in `Theorems.lean`.
+  commands.  Also here: the Spec side of `global_access_keeps_temporary` (the case the condition excludes) and
+  the idempotence of the Spec's `get_or_new` walk.  Property theorems are in `Theorems.lean`.
 -/
 import YashModel.Variable.Frame
 namespace YashModel.Variable
@@ -361,5 +362,155 @@ theorem spec_global_access_carries_temporary (X : SSet) (hB : BaseReg X) (n : Na
     exact hX this)]
   rw [lookup_lower_global n X hB]
   rfl
+
+/-! ### `get_or_new` is idempotent -/
+
+theorem set_set_same (c : SCtx) (n : Name) (v w : Option Variable) : (c.set n v).set n w = c.set n w := by
+  simp only [SCtx.set]; congr 1; funext m; split <;> rfl
+
+theorem lower_isEmpty (n : Name) (tb : Bool) (X : SSet) (c : Option Variable) :
+    (lower n tb X c).isEmpty = X.isEmpty := by
+  have := congrArg List.length (lower_kinds n tb X c)
+  simp only [List.length_map] at this
+  cases X <;> cases h : lower n tb _ c <;> simp_all
+
+/-- the Spec's `get_or_new` walk is idempotent: a second walk finds the variable where the first one
+    left it and changes nothing -/
+theorem lower_idem (n : Name) (tb : Bool) (X : SSet) (c : Option Variable) :
+    lower n tb (lower n tb X c) none = lower n tb X c := by
+  induction X generalizing c with
+  | nil => rfl
+  | cons d t ih =>
+    by_cases hd : d.kind.isRegular = true
+    · cases hv : d.vars n with
+      | some v =>
+        have h1 : lower n tb (d :: t) c = d.set n (some (c.getD v)) :: t := by simp [lower, hd, hv]
+        rw [h1]
+        have hk : (d.set n (some (c.getD v))).kind.isRegular = true := hd
+        have hv2 : (d.set n (some (c.getD v))).vars n = some (c.getD v) := by simp [SCtx.set]
+        simp only [lower, hk, hv2, if_true, Option.getD_none, set_set_same]
+      | none =>
+        by_cases hb : (!tb || t.isEmpty) = true
+        · have h1 : lower n tb (d :: t) c = d.set n (some (c.getD {})) :: t := by simp [lower, hd, hv, hb]
+          rw [h1]
+          have hk : (d.set n (some (c.getD {}))).kind.isRegular = true := hd
+          have hv2 : (d.set n (some (c.getD {}))).vars n = some (c.getD {}) := by simp [SCtx.set]
+          simp only [lower, hk, hv2, if_true, Option.getD_none, set_set_same]
+        · have h1 : lower n tb (d :: t) c = d :: lower n tb t c := by simp [lower, hd, hv, hb]
+          rw [h1]
+          have hb' : (!tb || (lower n tb t c).isEmpty) = false := by
+            rw [lower_isEmpty]; simpa using hb
+          simp only [lower, hd, hv, hb', if_true, ih c]
+          simp
+    · cases hv : d.vars n with
+      | some v =>
+        have h1 : lower n tb (d :: t) c = d.set n none :: lower n tb t (some (c.getD v)) := by
+          simp [lower, hd, hv]
+        rw [h1]
+        have hk : (d.set n none).kind.isRegular = false := by
+          show d.kind.isRegular = false
+          simpa using hd
+        have hv' : (d.set n none).vars n = none := by simp [SCtx.set]
+        simp only [lower, hk, hv', ih]
+        simp
+      | none =>
+        have h1 : lower n tb (d :: t) c = d :: lower n tb t c := by simp [lower, hd, hv]
+        rw [h1]
+        simp only [lower, hd, hv, ih]
+        simp
+
+/-- (Spec) `get_or_new` twice is `get_or_new` once, in every scope -/
+theorem spec_getOrNew_idem (X X1 : SSet) (n : Name) (sc : Scope) (h : X.getOrNew n sc = some X1) :
+    X1.getOrNew n sc = some X1 := by
+  cases sc with
+  | global =>
+    simp only [SSet.getOrNew, Option.some.injEq] at h ⊢; subst h; exact lower_idem n true X none
+  | loc =>
+    simp only [SSet.getOrNew, Option.some.injEq] at h ⊢; subst h; exact lower_idem n false X none
+  | volatile =>
+    cases X with
+    | nil => simp [SSet.getOrNew] at h
+    | cons c t =>
+      simp only [SSet.getOrNew] at h
+      by_cases hc : c.kind.isRegular = true
+      · simp [hc] at h
+      · simp only [hc, Bool.false_eq_true, if_false] at h
+        cases hv : c.vars n with
+        | some v =>
+          simp only [hv, Option.some.injEq] at h; subst h
+          simp [SSet.getOrNew, hc, hv]
+        | none =>
+          simp only [hv, Option.some.injEq] at h; subst h
+          have hc' : c.kind.isRegular = false := by simpa using hc
+          simp [SSet.getOrNew, SCtx.set, hc']
+
+/-! ### nested function calls -/
+
+theorem balanced_append (a b : List Op) (k d : Nat) (h : balanced k a = true) :
+    balanced (d + k) (a ++ b) = balanced d b := by
+  induction a generalizing k with
+  | nil =>
+    have : k = 0 := by simpa [balanced] using h
+    subst this; rfl
+  | cons op a ih =>
+    cases op with
+    | push c => simpa [balanced, Nat.add_assoc] using ih (k + 1) (by simpa [balanced] using h)
+    | pop =>
+      cases k with
+      | zero => simp [balanced] at h
+      | succ k =>
+        have := ih k (by simpa [balanced] using h)
+        simpa [balanced, ← Nat.add_assoc] using this
+    | getOrNew _ _ => simpa [balanced] using ih k (by simpa [balanced] using h)
+    | assign _ _ _ _ => simpa [balanced] using ih k (by simpa [balanced] using h)
+    | «export» _ _ _ => simpa [balanced] using ih k (by simpa [balanced] using h)
+    | readonly _ _ _ => simpa [balanced] using ih k (by simpa [balanced] using h)
+    | unset _ _ => simpa [balanced] using ih k (by simpa [balanced] using h)
+    | setParams _ => simpa [balanced] using ih k (by simpa [balanced] using h)
+    | quirk _ _ _ => simpa [balanced] using ih k (by simpa [balanced] using h)
+
+theorem balanced_append0 (a b : List Op) (ha : balanced 0 a = true) (hb : balanced 0 b = true) :
+    balanced 0 (a ++ b) = true := by
+  have := balanced_append a b 0 0 ha
+  simpa [hb] using this
+
+theorem balanced_tempOps (as : List (Name × Value)) (d : Nat) (r : List Op) :
+    balanced d (tempOps as ++ r) = balanced d r := by
+  induction as with
+  | nil => rfl
+  | cons p t ih =>
+    obtain ⟨n, v⟩ := p
+    simpa [tempOps, balanced] using ih
+
+theorem balanced_functionCmd (as : List (Name × Value)) (ps : List String) (body : List Op)
+    (hb : balanced 0 body = true) : balanced 0 (functionCmd as ps body) = true := by
+  have h2 : balanced 2 (body ++ [Op.pop, Op.pop]) = true := by
+    have := balanced_append body [Op.pop, Op.pop] 0 2 hb
+    simpa [balanced] using this
+  have h1 : functionCmd as ps body
+      = Op.push .volatile :: (tempOps as ++ (Op.push (.regular ps) :: (body ++ [Op.pop, Op.pop]))) := by
+    simp [functionCmd]
+  rw [h1]
+  show balanced 1 (tempOps as ++ _) = true
+  rw [balanced_tempOps]
+  exact h2
+
+/-- nested function calls: level `i` = (temporaries, arguments, what the body does before and after
+    calling level `i + 1`) -/
+def nestCalls : List (List (Name × Value) × List String × List Op × List Op) → List Op
+  | [] => []
+  | (as, ps, pre, post) :: rest => functionCmd as ps (pre ++ nestCalls rest ++ post)
+
+theorem balanced_nestCalls (levels : List (List (Name × Value) × List String × List Op × List Op))
+    (h : ∀ l ∈ levels, balanced 0 l.2.2.1 = true ∧ balanced 0 l.2.2.2 = true) :
+    balanced 0 (nestCalls levels) = true := by
+  induction levels with
+  | nil => rfl
+  | cons l rest ih =>
+    obtain ⟨as, ps, pre, post⟩ := l
+    have hl := h _ (List.mem_cons_self)
+    have hr := ih (fun l hl => h l (List.mem_cons_of_mem _ hl))
+    exact balanced_functionCmd as ps _
+      (balanced_append0 _ _ (balanced_append0 _ _ hl.1 hr) hl.2)
 
 end YashModel.Variable
